@@ -18,6 +18,13 @@ pub mod verif_access {
             block_on_threads: false,
         }
     }
+    /// the same, holding the given persistent state (tables of an arbitrary earlier session)
+    pub fn mk_uci_with(game: Game, ps: PersistentState) -> Uci {
+        let mut u = mk_uci(game);
+        u.persistent_state = Arc::new(Mutex::new(ps));
+        u
+    }
+    pub fn with_state<R>(u: &Uci, f: impl FnOnce(&mut PersistentState) -> R) -> R { f(&mut u.persistent_state.lock().unwrap()) }
     pub fn execute_ok(u: &mut Uci, cmd: &UciCommand) -> bool { u.execute(cmd).is_ok() }
     pub fn game(u: &Uci) -> &Game { &u.game }
     pub fn options(u: &Uci) -> &EngineOptions { &u.options }
